@@ -11,7 +11,7 @@ from harness.idpfix import IdPFixture, ModelBackend
 from veriflib.boot import Clock, concrete, untraced
 from veriflib import timemodel
 from veriflib.runner import Cond
-from saml2_tophat import saml, samlp, BINDING_HTTP_POST
+from saml2_tophat import saml, samlp, BINDING_HTTP_POST, BINDING_SOAP
 from saml2_tophat.population import Population
 from saml2_tophat.s_utils import factory
 
@@ -21,7 +21,7 @@ BACK = IDP.backend                     # one backend on both sides: what it encr
 SP = F.mk_client()
 SP.sec.crypto = BACK
 VALS = ["Alice", "<b>", "&amp;", "a&b", "\"q'", "é", "日本", "\U0001F600", "  padded  ", "l1\nl2", "<!--x-->", "<saml:Attribute Name=\"evil\"/>",
-        "]]>", "x" * 300, "a\tb", "0", "<?xml version='1.0'?>", "", "   "]
+        "]]>", "x" * 300, "a\tb", "0", "<?xml version='1.0'?>", "", "   ", "CORP\\user1", "EXAMPLE\\north"]
 NV = len(VALS)
 FORMATS = [saml.NAMEID_FORMAT_TRANSIENT, saml.NAMEID_FORMAT_PERSISTENT, saml.NAMEID_FORMAT_EMAILADDRESS, saml.NAMEID_FORMAT_UNSPECIFIED]
 ACS = ["urn:oasis:names:tc:SAML:2.0:ac:classes:Password", "urn:oasis:names:tc:SAML:2.0:ac:classes:PasswordProtectedTransport",
@@ -29,9 +29,9 @@ ACS = ["urn:oasis:names:tc:SAML:2.0:ac:classes:Password", "urn:oasis:names:tc:SA
 
 
 def roundtrip(v1: int, v2: int, v3: int, nid: int, fmt: int, ac: int, sign_response: bool, sign_assertion: bool, encrypt: bool,
-              want: int, session: bool):
+              want: int, session: bool, soap: bool = False):
     v1, v2, v3, nid, fmt, ac, want = [concrete(x) for x in (v1, v2, v3, nid, fmt, ac, want)]
-    sign_response, sign_assertion, encrypt, session = [concrete(x) for x in (sign_response, sign_assertion, encrypt, session)]
+    sign_response, sign_assertion, encrypt, session, soap = [concrete(x) for x in (sign_response, sign_assertion, encrypt, session, soap)]
     ck = Clock(NOW)
     IDP.reset()
     BACK.vault = {}
@@ -46,7 +46,13 @@ def roundtrip(v1: int, v2: int, v3: int, nid: int, fmt: int, ac: int, sign_respo
         sign_response=sign_response, sign_assertion=sign_assertion, encrypt_assertion=encrypt,
         session_not_on_or_after=sess_txt)
     text = "%s" % out
-    wire = base64.b64encode(text.encode("utf-8")).decode("ascii")
+    if soap:
+        try:
+            wire = IDP.server.apply_binding(BINDING_SOAP, text, F.ACS_POST, response=True)["data"]
+        except Exception as e:
+            return False, True, "packaging failed: %r" % e
+    else:
+        wire = base64.b64encode(text.encode("utf-8")).decode("ascii")
     # the SP's signature requirements are satisfied by what the IdP signed
     want_resp = sign_response and want in (0, 2)
     want_ass = sign_assertion and want in (1, 2)
@@ -57,7 +63,7 @@ def roundtrip(v1: int, v2: int, v3: int, nid: int, fmt: int, ac: int, sign_respo
     resp = None
     exc = None
     try:
-        resp = SP.parse_authn_request_response(wire, BINDING_HTTP_POST, {"id-req1": "/came/from"})
+        resp = SP.parse_authn_request_response(wire, BINDING_SOAP if soap else BINDING_HTTP_POST, {"id-req1": "/came/from"})
     except Exception as e:
         exc = e
     if resp is None:
@@ -73,7 +79,7 @@ def roundtrip(v1: int, v2: int, v3: int, nid: int, fmt: int, ac: int, sign_respo
         ok = False
         why.append("name_id %r" % (None if resp.name_id is None else (resp.name_id.text, resp.name_id.format)))
     si = resp.session_info()
-    if resp.in_response_to != "id-req1" or si["issuer"] != F.IDP_ID or resp.came_from != "/came/from":
+    if resp.in_response_to != "id-req1" or si["issuer"] != F.IDP_ID or ((not soap) and resp.came_from != "/came/from"):
         ok = False
         why.append("irt/issuer/came_from %r %r %r" % (resp.in_response_to, si["issuer"], resp.came_from))
     if [a[0] for a in si["authn_info"]] != [ACS[ac]]:
@@ -92,12 +98,12 @@ def roundtrip(v1: int, v2: int, v3: int, nid: int, fmt: int, ac: int, sign_respo
 
 
 _P = [("v1", "int"), ("v2", "int"), ("v3", "int"), ("nid", "int"), ("fmt", "int"), ("ac", "int"), ("sign_response", "bool"),
-      ("sign_assertion", "bool"), ("encrypt", "bool"), ("want", "int"), ("session", "bool")]
+      ("sign_assertion", "bool"), ("encrypt", "bool"), ("want", "int"), ("session", "bool"), ("soap", "bool")]
 _PRE = ["0 <= v1 < %d" % NV, "0 <= v2 < %d" % NV, "0 <= v3 < %d" % NV, "0 <= nid < %d" % NV, "0 <= fmt < %d" % len(FORMATS), "0 <= ac < %d" % len(ACS), "0 <= want <= 3"]
 CONDITIONS = [
     Cond(name="roundtrip", fn="roundtrip", params=_P, pre=_PRE,
          partitions={"quick": [{"v1": a, "v2": (a * 7 + 3) % NV, "v3": (a * 5 + 1) % NV, "nid": (a * 3 + 2) % NV, "fmt": a % 4, "ac": a % 3,
-                                "sign_response": a % 2 == 0, "sign_assertion": (a // 2) % 2 == 0, "want": a % 4, "session": a % 3 == 0} for a in range(NV)],
+                                "sign_response": a % 2 == 0, "sign_assertion": (a // 2) % 2 == 0, "want": a % 4, "session": a % 3 == 0, "soap": a % 2 == 1} for a in range(NV)],
                      "thorough": [{"v1": a, "v2": b, "fmt": a % 4, "ac": b % 3, "sign_response": sr, "sign_assertion": sa, "want": (a + b) % 4}
                                   for a in range(NV) for b in range(NV) for sr in (False, True) for sa in (False, True)]},
          timeout={"quick": 900, "thorough": 2400}, path_timeout=120,
@@ -106,14 +112,14 @@ CONDITIONS = [
                     "entity.Entity._parse_response/unravel", "response.AuthnResponse.loads/verify/parse_assertion/get_identity/session_info", "metadata.entity_descriptor (fixtures)"],
          bounds="attribute values (givenName single, mail 1-2 values) and NameID text from a %d-entry alphabet (XML-special, quotes, non-ASCII, astral, padded, line breaks, comment / element / "
                 "declaration look-alikes, ']]>', 300 chars); 4 NameID formats; 3 authn context classes; sign_response x sign_assertion x encrypt_assertion; 4 SP requirement settings "
-                "(satisfied by what is signed); session expiry present/absent; POST binding. quick: one diagonal sample per alphabet entry with encrypt free" % NV),
+                "(satisfied by what is signed); session expiry present/absent; POST and SOAP bindings. quick: one diagonal sample per alphabet entry with encrypt free" % NV),
 ]
 
 ASSUMPTIONS = [
     "IdP and SP configured from each other's library-generated metadata (harness/fixtures.py)",
     "signing = statement returned unchanged, verification = accept, encryption = opaque token with vault (harness/idpfix.py ModelBackend): the cryptography itself is xmlsec1's",
     "strings are concrete per path (symbolic indices into the alphabet), so ElementTree serialisation, base64 and expat really run",
-    "POST binding only (Redirect/SOAP packaging is C14's subject); digest/signature algorithm settings only choose template URIs and are not varied",
+    "POST and SOAP bindings (Redirect packaging of responses is C14's subject); digest/signature algorithm settings only choose template URIs and are not varied",
     "NameID text is never empty (schema: a NameID without text is not valid); attribute values may be empty or blank (read back as '')",
     "integer clock model, fixed clock; id generator stubbed",
 ]
